@@ -14,7 +14,7 @@ def fetchVis (st : Store) : Vis := { st := st, retracted := [] }
     non-increasing salience; it is a permutation of the matching entries in visiting order (so each rule
     appears exactly as often as it is in the knowledge base: once); the facts are untouched. -/
 theorem C11_exact {c : Cfg} (retErr : Bool) (o : Option (List String)) (inst : Instance) (st : Store)
-    (hp : MethodsPure c) (hi : SnapInj) (hw : WFEntries inst.entries) (hk : KeysNodup inst.entries)
+    (hp : MethodsPure c) (hfl : FloatPF) (hw : WFEntries inst.entries) (hk : KeysNodup inst.entries)
     (hok : (fetch retErr o c inst st).outcome = .ok) :
     (∀ x, x ∈ (fetch retErr o c inst st).rules ↔
         (x ∈ inst.entries ∧ x.deleted = false ∧ holds c st x.rule = true)) ∧
@@ -25,7 +25,7 @@ theorem C11_exact {c : Cfg} (retErr : Bool) (o : Option (List String)) (inst : I
   have hcoh : Coh c (resetAll { st := st, memoE := inst.memoE, memoA := inst.memoA, retracted := [] }) :=
     coh_empty _ rfl rfl
   have hwo : WFEntries (orderEntries o inst.entries) := fun x hx => hw x (orderEntries_mem _ _ x hx)
-  obtain ⟨h1, h2, _, h4⟩ := fetchPass_sound hp hi retErr (orderEntries o inst.entries) _ [] hwo hcoh
+  obtain ⟨h1, h2, _, h4⟩ := fetchPass_sound hp (snapInj_of hfl) retErr (orderEntries o inst.entries) _ [] hwo hcoh
   have hvis : (resetAll { st := st, memoE := inst.memoE, memoA := inst.memoA, retracted := [] }).vis = fetchVis st := rfl
   rw [hvis] at h1 h2 h4
   generalize fetchPass retErr c (orderEntries o inst.entries)
